@@ -29,3 +29,20 @@ Theorem C01_check_master_iff : forall n, check_master n = Ok true <->
   exists rv, running_views n (n_views n) = Ok rv /\
     (rv = [] \/ exists M, M <> 0 /\ forall js, In js rv -> sm_master (snd js) = M).
 Proof. exact check_master_iff. Qed.
+
+(* C01 (cluster level, logical core) — among instances that hold exact views of one another, see exactly one another
+   RUNNING, whose last evaluation found the Master consistent and whose Master is seen RUNNING locally (SM-local, proved
+   invariant under the hypotheses of C02_run_c02_partial): everybody reports the same Master, it is one of them, all see
+   it RUNNING and it regards itself as the Master. Proof in proofs/ClusterProofs.v. *)
+From Sup Require Import Cluster ClusterSpec ClusterProofs.
+
+Theorem C01_quiescent_agreement_cluster : forall (nodes : list node),
+  nodes <> [] ->
+  (forall ni nj, In ni nodes -> In nj nodes -> view_exact ni nj) ->
+  (forall n, In n nodes -> sees_exactly n (map n_me nodes)) ->
+  (forall n, In n nodes -> master_consistent n) ->
+  (forall n, In n nodes -> sm_local n) ->
+  exists M, In M (map n_me nodes) /\ M <> 0 /\
+    (forall n, In n nodes -> master n = M /\ sees_running n M = true) /\
+    (exists nM, In nM nodes /\ n_me nM = M /\ master nM = M /\ is_master nM = true).
+Proof. exact quiescent_agreement. Qed.
